@@ -211,8 +211,8 @@ class Endpoint:
                 z[key] = 'unreadable'
 
         put('conn', lambda: conn.state_machine.state.name)
-        put('hiIn', lambda: conn.highest_inbound_stream_id)
-        put('hiOut', lambda: conn.highest_outbound_stream_id)
+        put('hiIn', lambda: absn.i32(conn.highest_inbound_stream_id))
+        put('hiOut', lambda: absn.i32(conn.highest_outbound_stream_id))
         put('ow', lambda: absn.i32(conn.outbound_flow_control_window))
         put('iw', lambda: wm(conn._inbound_flow_control_window_manager))
 
@@ -221,7 +221,7 @@ class Endpoint:
             for sid, s in conn.streams.items():
                 sm = s.state_machine
                 ecl = s._expected_content_length
-                out.append({'sid': sid, 'st': sm.state.name, 'cl': tri(sm.client), 'hs': tri(sm.headers_sent),
+                out.append({'sid': absn.i32(sid), 'st': sm.state.name, 'cl': tri(sm.client), 'hs': tri(sm.headers_sent),
                             'ts': tri(sm.trailers_sent), 'hr': tri(sm.headers_received),
                             'tr': tri(sm.trailers_received), 'by': by(sm.stream_closed_by),
                             'ow': absn.i32(s.outbound_flow_control_window), 'iw': wm(s._inbound_window_manager),
@@ -229,7 +229,7 @@ class Endpoint:
                             'acl': s._actual_content_length, 'meth': txt(s.request_method), 'auth': txt(s._authority)})
             return out
         put('streams', streams)
-        put('closed', lambda: [[sid, by(v)] for sid, v in conn._closed_streams.items()])
+        put('closed', lambda: [[absn.i32(sid), by(v)] for sid, v in conn._closed_streams.items()])
         put('ls', lambda: settings(conn.local_settings))
         put('rs', lambda: settings(conn.remote_settings))
         put('hdrCap', lambda: conn.decoder.max_header_list_size)
